@@ -46,11 +46,13 @@ CHECKS["C18"] = dict(
 
 CHECKS["C06"] = dict(
     category="other",
-    technique="table reading: both Mac Roman match tables read from MIR (SwitchInt maps + range guards) and compared exhaustively for mutual inverseness",
-    text=("Static, exhaustive decision of the clause 'the Mac Roman conversions are mutual inverses': all 256 codes and every scalar "
-          "value distinguished by either table (the functions are piecewise constant/identity between breakpoints, so this covers "
-          "all 0x110000 values). cmap format lookup arithmetic, preference order and Big5 (encoding_rs) are not decided."),
-    design_ref="DESIGN.md section 6, C06",
+    technique="table reading: both Mac Roman match tables read from MIR (SwitchInt maps + range guards) and compared exhaustively; decision-list reading of the sub-table preference (probe constants evaluated by rustc) against the cmap specification's platform/encoding table; sibling agreement of lookup and enumeration on the format 4 kernel; dispatch exhaustiveness",
+    text=("Static, exhaustive decision of 'the Mac Roman conversions are mutual inverses' (all 256 codes and every scalar value distinguished by "
+          "either table); of the sub-table preference list (every probed (platform, encoding) pair means, by the specification, the Encoding it "
+          "is returned as; full-repertoire before BMP; Unicode before Symbol/Mac Roman/Big5); and of the agreement between single lookups and "
+          "enumeration for format 4 (one shared kernel fed with the raw segment values) with every format listed in both dispatchers. Format "
+          "0/2/6/10/12 lookup arithmetic and Big5 (encoding_rs) are not decided."),
+    design_ref="DESIGN.md section 6, C06 and section 11",
 )
 CHECKS["C12"] = dict(
     category="other",
